@@ -198,8 +198,8 @@ BAD_DECS = ['""', '"abc"', '"1,5"', '" 1"', '"1 "', '"_1"', '"1e"', '"e1"', '"."
             "123456789012345678901234567890", "null", "true", "[1]", "{}", '{"x":"1"}', '"--1"', '"+-1"', '"1-"', '"１"',
             '"1.5e"', '"1.5e+"', '"1e1.5"', '"1.5ee1"', '"NaN"', '"inf"', '"1.0000000000000000000000000000x"']
 
-# F23: rust_decimal stops reading at its rounding position, so garbage after the 29th decimal is accepted
-F23_DECS = ['"1.00000000000000000000000000005abc"', '"0.00000000000000000000000000001 EUR"',
+# F26: rust_decimal stops reading at its rounding position, so garbage after the 29th decimal is accepted
+F26_DECS = ['"1.00000000000000000000000000005abc"', '"0.00000000000000000000000000001 EUR"',
             '"7922816251426433759354395033.55xyz"', '"1.0000000000000000000000000000_abc"']
 
 
@@ -723,7 +723,7 @@ class C18(PropBase):
         with_leaf(bad_dec_leaf, "bad-number", 70 * scale)
 
         def f23_leaf(txns, leaf):
-            return Obj([("TxnFilterPostingAmountEqual", Obj([("regex", ".*"), ("amount", Raw(rng.choice(F23_DECS)))]))])
+            return Obj([("TxnFilterPostingAmountEqual", Obj([("regex", ".*"), ("amount", Raw(rng.choice(F26_DECS)))]))])
         with_leaf(f23_leaf, "bad-number:tail-after-rounding", 6 * scale)
 
         def bad_ts_leaf(txns, leaf):
